@@ -5,8 +5,10 @@
      frag_inline         fragment_spread_inlining.go
      self_alias          remove_self_aliasing.go
      inline_sel          inline_selections_from_inline_fragments.go
-     merge_sel           inline_fragment_selection_merging.go  (fields with sub-selections are merged
-                          on name / alias / directives only, arguments are NOT compared -- as the code)
+     merge_sel           inline_fragment_selection_merging.go  (fields with sub-selections are merged when
+                          name, alias, ARGUMENTS and directives agree: the working tree of /repo at commit
+                          a156714 "do not merge fields that differ in their arguments"; before that
+                          commit the arguments were not compared)
      remove_frag_defs    fragment_definition_removal.go
      dedup               field_deduplication.go + ast.FieldsAreEqualFlat
 
@@ -319,8 +321,8 @@ Definition inline_sel (S : schema) (d : document) : document :=
 Definition can_merge (l r : selection) : bool :=
   match l, r with
   | SInline c1 d1 _, SInline c2 d2 _ => opt_name_eqb c1 c2 && dirs_eqb d1 d2
-  | SField a1 n1 _ d1 (_ :: _), SField a2 n2 _ d2 (_ :: _) =>
-    bytes_eqb n1 n2 && opt_name_eqb a1 a2 && dirs_eqb d1 d2       (* arguments are not compared *)
+  | SField a1 n1 g1 d1 (_ :: _), SField a2 n2 g2 d2 (_ :: _) =>
+    bytes_eqb n1 n2 && opt_name_eqb a1 a2 && args_eqb g1 g2 && dirs_eqb d1 d2
   | _, _ => false
   end.
 Definition sel_subs (s : selection) : list selection :=
